@@ -32,6 +32,12 @@ def run(ctx):
         for pr, _, _ in probs:
             pr.rule = "H1"
         res.append(("H1 list read after the pre hook", n, probs))
+        n, probs = ma.writes_only_via_parent_setter()
+        for pr, _, _ in probs:
+            pr.rule = "H3"
+            pr.why = "a link changes outside a parent assignment, so its hooks are fired with a parent that was not read from the node at " \
+                     "that moment (a hook that re-homed the node meanwhile is not noticed): " + pr.why
+        res.append(("H3 link changes inside parent assignments", n, probs))
         n, probs = ma.setter_order()
         res.append(("H3 parent assignments", n, probs))
         n, probs = ma.noop_guard_problems()
